@@ -73,6 +73,11 @@ def automata_corpus():
     # into it (seeded change C17-8)
     c["state_named_empty_string"] = A(frozenset(["", "a", "aé"]), {"": w[0]}, {"aé": w[1]},
                                       [("", "a", "a", w[2]), ("a", "é", "aé", w[3]), ("aé", EPS, "", w[4]), ("a", "€", "", w[5])])
+    # U+0000 encodes to the single byte 0 - a falsy label that is not epsilon (seeded change C17-9)
+    c["nul_character"] = A(frozenset("pqr"), {"p": F(1)}, {"r": w[0]}, [("p", "a", "q", w[1]), ("q", "\x00", "r", w[2]), ("r", EPS, "p", w[3]), ("p", "\x00", "r", w[4])])
+    # the last byte value also occurs at an earlier continuation position: U+4E38 = e4 b8 b8, U+3041 = e3 81 81, U+1F618 = f0 9f 98 98
+    # (the arc weight belongs on the LAST arc of the chain only; seeded change C17-10)
+    c["last_byte_recurs"] = A(frozenset("pqr"), {"p": F(1)}, {"r": w[0]}, [("p", "\u4e38", "q", w[1]), ("q", "\u3041", "r", w[2]), ("p", "\U0001f618", "r", w[3]), ("r", "a", "p", w[4])])
     c["one_state_is_symbol"] = A(frozenset(["p", "b"]), {"p": F(1)}, {"b": w[0]}, [("p", "a", "b", w[1]), ("b", "b", "p", w[2])])
     # integer state names that coincide with UTF-8 byte values of the labels (only visible after to_bytes)
     c["int_states_eq_bytes"] = A(frozenset([97, 195, 169]), {97: F(1)}, {169: w[0]},
